@@ -6,6 +6,7 @@ package main
 
 import (
 	"fmt"
+	"go/token"
 	"go/types"
 	"strings"
 
@@ -188,12 +189,56 @@ func init() {
 				}
 			}
 		}
+		pre := e.cur
 		e.havocAll()
+		if op.Fn != nil {
+			// a captured variable the operation only reads (no store through the free variable,
+			// not passed on to a nested closure) keeps its value: only the enclosing function and
+			// the closure can name the cell
+			for i, fv := range op.Fn.FreeVars {
+				if i >= len(op.Bind) || op.Bind[i] == nil || op.Bind[i].K != KPtr {
+					continue
+				}
+				readOnly := fv.Referrers() != nil
+				if readOnly {
+					for _, ref := range *fv.Referrers() {
+						if u, ok := ref.(*ssa.UnOp); !ok || u.Op != token.MUL {
+							readOnly = false
+						}
+					}
+				}
+				if readOnly {
+					a := e.addrOf(op.Bind[i])
+					e.store(e.cur, a, e.load(pre, a))
+				}
+			}
+		}
 		return e.freshVal("retryerr", resT)
 	}
 	nativeModels["(context.Context).Err"] = func(e *Encoder, fr *frame, args []*SVal, ci ssa.CallInstruction, resT types.Type) *SVal {
 		return e.freshVal("ctxerr", resT)
 	}
+}
+
+func init() {
+	// real-valued math functions: uninterpreted (equal arguments give equal results)
+	for _, n := range []string{"Pow", "Log", "Log10", "Log2", "Exp", "Exp2", "Sqrt"} {
+		n := n
+		nativeModels["math."+n] = func(e *Encoder, fr *frame, args []*SVal, ci ssa.CallInstruction, resT types.Type) *SVal {
+			e.trusted["math."+n+" is an uninterpreted real function (float64 treated as real arithmetic)"] = true
+			var ts []*Term
+			for _, a := range args {
+				ts = append(ts, a.T)
+			}
+			return &SVal{K: KScalar, Typ: types.Typ[types.Float64], T: e.c.App("math."+n, RealS, ts...)}
+		}
+		pureNative["math."+n] = true
+	}
+	nativeModels["math.Pow10"] = func(e *Encoder, fr *frame, args []*SVal, ci ssa.CallInstruction, resT types.Type) *SVal {
+		e.trusted["math.Pow10 is an uninterpreted function of its integer argument (float64 treated as real arithmetic)"] = true
+		return &SVal{K: KScalar, Typ: types.Typ[types.Float64], T: e.c.App("math.Pow10", RealS, args[0].T)}
+	}
+	pureNative["math.Pow10"] = true
 }
 
 const noopFuncTag = -7
